@@ -315,8 +315,9 @@ impl<L> ClientBuilder<L> {
 		let (client_dropped_tx, client_dropped_rx) = oneshot::channel();
 		let (send_receive_task_sync_tx, send_receive_task_sync_rx) = mpsc::channel(1);
 		let manager = ThreadSafeRequestManager::new();
+		// Weak: the accessor must not keep the manager (and with it the pending oneshots) alive.
 		#[cfg(jsonrpsee_verif)]
-		let verif_manager = manager.clone();
+		let verif_manager = Arc::downgrade(&manager.0);
 
 		let (ping_interval, inactivity_stream, inactivity_check) = match self.ping_config {
 			None => (IntervalStream::pending(), IntervalStream::pending(), InactivityCheck::Disabled),
@@ -451,7 +452,7 @@ pub struct Client<L = RpcLogger<RpcService>> {
 	service: L,
 	/// Handle to the request manager shared with the background tasks (verification accessor only).
 	#[cfg(jsonrpsee_verif)]
-	verif_manager: Option<ThreadSafeRequestManager>,
+	verif_manager: Option<std::sync::Weak<std::sync::Mutex<RequestManager>>>,
 }
 
 impl Client<Identity> {
@@ -496,7 +497,10 @@ impl<L> Client<L> {
 	/// Sizes of the request manager's four tables: requests, subscriptions, batches, notification handlers.
 	#[cfg(jsonrpsee_verif)]
 	pub fn verif_table_sizes(&self) -> [usize; 4] {
-		self.verif_manager.as_ref().map_or([0; 4], |m| m.lock().verif_table_sizes())
+		self.verif_manager
+			.as_ref()
+			.and_then(|m| m.upgrade())
+			.map_or([0; 4], |m| m.lock().expect(NOT_POISONED).verif_table_sizes())
 	}
 }
 
